@@ -44,10 +44,13 @@ def selectOp : Handler := fun req => do
   -- implementation: rows printed by `list`, (METHOD, path) of the methods emitted
   let ilist := (arr (fieldD impl "list" (Json.arr #[]))).toOption.getD []
   let iemit := (arr (fieldD impl "emitted" (Json.arr #[]))).toOption.getD []
-  let silent := (arr (fieldD inp "silent" (Json.arr #[]))).toOption.getD []     -- ops with nothing to build a request from
+  -- the server target emits a trait method for EVERY selected operation, webhooks and request-less ones included;
+  -- the client target has no method for a webhook and silently drops an operation with nothing to build a request from
+  let server := (fieldD inp "target" (Json.str "client-mod")) == Json.str "server-mod"
+  let silent := if server then [] else (arr (fieldD inp "silent" (Json.arr #[]))).toOption.getD []     -- ops with nothing to build a request from
   let implJ := Json.mkObj [("list", Json.arr (sortRows ilist).toArray), ("emitted", Json.arr (sortRows iemit).toArray)]
   let modelJ := Json.mkObj [("list", Json.arr (sortRows (listed.map rowJson)).toArray),
-    ("emitted", Json.arr (sortRows (((got.filter fun e => !isWebhook e.2).filter fun e => !silent.contains (Json.arr #[str e.2.method, str e.2.path])).map fun e => Json.arr #[str e.2.method, str e.2.path])).toArray)]
+    ("emitted", Json.arr (sortRows (((got.filter fun e => server || !isWebhook e.2).filter fun e => !silent.contains (Json.arr #[str e.2.method, str e.2.path])).map fun e => Json.arr #[str e.2.method, str e.2.path])).toArray)]
   let _ := model
   -- judge: S ⊆ listed ids (by construction of the case); expected = rows whose LISTED id ∈ S (only) / ∉ S (exclude)
   let rowId (r : Json) : String := match r with | .arr #[.str i, _, _] => i | _ => ""
@@ -55,7 +58,7 @@ def selectOp : Handler := fun req => do
   let selS := sel.map String.ofList
   -- webhooks are listed but are not client/server operations: they are outside "emitted"
   let isHook (r : Json) : Bool := match r with | .arr #[_, _, .str p] => p.startsWith "webhooks/" | _ => false
-  let want := sortRows (((ilist.filter fun r => !isHook r).filter fun r => if mode == "only" then selS.contains (rowId r) else !selS.contains (rowId r)).map rowMP)
+  let want := sortRows (((ilist.filter fun r => server || !isHook r).filter fun r => if mode == "only" then selS.contains (rowId r) else !selS.contains (rowId r)).map rowMP)
   let gotI := sortRows iemit
   let identOk (s : Id) : Bool := match s with
     | 'r' :: '#' :: c :: r => (c.isAlpha || c == '_') && r.all (fun c => c.isAlphanum || c == '_')
@@ -63,7 +66,9 @@ def selectOp : Handler := fun req => do
     | [] => false
   let badId := got.any fun e => !identOk e.1
   let crashed := (fieldD impl "cli_rc" (Json.num 0)) != Json.num 0
-  let modelJ := if badId then Json.mkObj [("list", Json.arr (sortRows (listed.map rowJson)).toArray), ("emitted", Json.arr #[])] else modelJ
+  -- (the panic on a trimmed id that is not an identifier, F08-4, is in the client's method names; the server's trait
+  -- methods are named from the untrimmed id)
+  let modelJ := if badId && (!server || crashed) then Json.mkObj [("list", Json.arr (sortRows (listed.map rowJson)).toArray), ("emitted", Json.arr #[])] else modelJ
   let judge :=
     if crashed then verdict false (if badId then ["KnownTrimToNonIdent"] else []) "the generator exited with an error/panic for a selection of listed ids"
     else if !(selS.all fun s => ilist.any fun r => rowId r == s) then verdict true [] "S is not a subset of the listed ids (case ignored)"
@@ -74,7 +79,9 @@ def selectOp : Handler := fun req => do
       let uniquified := bases.eraseDups.length != bases.length
       let dropped := !silent.isEmpty
       let traceDup := ops.any fun o => o.method == "TRACE".toList
-      let known := (if trimmed then ["KnownTrimmed"] else []) ++ (if uniquified then ["KnownUniquified"] else []) ++ (if dropped then ["KnownSilentDrop"] else []) ++ (if traceDup then ["KnownTraceDuplicated"] else [])
+      -- the listed classes are all reproduced by the model: a wrong selection that the model does NOT predict is none of them
+      let known := if modelJ != implJ then [] else
+        (if trimmed then ["KnownTrimmed"] else []) ++ (if uniquified then ["KnownUniquified"] else []) ++ (if dropped then ["KnownSilentDrop"] else []) ++ (if traceDup then ["KnownTraceDuplicated"] else [])
       verdict false known s!"--{mode} {selS}: emitted {Json.arr gotI.toArray |>.compress}, expected the listed rows {Json.arr want.toArray |>.compress}"
   let branch := mode ++ s!"{sel.length}/{ops.length}"
   pure (Json.mkObj [("model", modelJ), ("match", modelJ == implJ), ("judge", judge), ("branch", branch)])
